@@ -1,5 +1,6 @@
 import Capella.Driver.Util
 import Capella.Model.Xml
+import Capella.Model.XmlParse
 namespace Capella.Driver.Xml
 open Lean Capella.Driver Capella.Xml
 
@@ -105,6 +106,20 @@ def handle (op : String) (j : Json) : Except String Json := do
     let v ← getStr j "v"
     let p ← getNat j "prec"
     pure (jstr (roundVersion v p))
+  | "xml.parse" =>
+    let s ← getStr j "s"
+    match parse s with
+    | none => pure (Json.mkObj [("fail", true)])
+    | some d =>
+      let cj (c : Comment) : Json := Json.arr #[jstr c.text, jopt c.tail]
+      pure (Json.mkObj [("doc", Json.mkObj [("pre", Json.arr (d.pre.map cj).toArray),
+        ("root", elemJson d.root), ("post", Json.arr (d.post.map cj).toArray)])])
+  | "xml.unescape" =>
+    let s ← getStr j "s"
+    let strict ← getBool j "strict"
+    match (if strict then unescapeXml s else unescape s) with
+    | none => pure (Json.mkObj [("fail", true)])
+    | some r => pure (Json.mkObj [("out", jstr r)])
   | "xml.splitName" =>
     let s ← getStr j "s"
     let r := splitName s
